@@ -1,0 +1,48 @@
+//go:build verif
+
+// Verification hooks (build tag verif). Add-only: lets the /verif harness put a recording
+// key-value engine underneath a MuxDB.
+
+package muxdb
+
+import (
+	"github.com/vechain/thor/v2/muxdb/engine"
+)
+
+// VerifOptions selects the trie backend configuration of a MuxDB built over a custom engine.
+type VerifOptions struct {
+	CacheSizeMB         int // 0 = dummy cache (as NewMem)
+	CachedNodeTTL       uint16
+	HistPartitionFactor uint32
+	DedupedPtnFactor    uint32
+}
+
+// NewWithEngine builds a MuxDB over the given engine (as NewMem does over a memory leveldb).
+func NewWithEngine(e engine.Engine, o VerifOptions) *MuxDB {
+	var c Cache = &dummyCache{}
+	if o.CacheSizeMB > 0 {
+		c = newCache(o.CacheSizeMB, uint32(o.CachedNodeTTL))
+	}
+	if o.HistPartitionFactor == 0 {
+		o.HistPartitionFactor = 1
+	}
+	if o.DedupedPtnFactor == 0 {
+		o.DedupedPtnFactor = 1
+	}
+	if o.CachedNodeTTL == 0 && o.CacheSizeMB == 0 {
+		o.CachedNodeTTL = 32
+	}
+	return &MuxDB{
+		engine: e,
+		trieBackend: &backend{
+			Store:            e,
+			Cache:            c,
+			HistPtnFactor:    o.HistPartitionFactor,
+			DedupedPtnFactor: o.DedupedPtnFactor,
+			CachedNodeTTL:    o.CachedNodeTTL,
+		},
+	}
+}
+
+// VerifEngine returns the underlying engine.
+func (db *MuxDB) VerifEngine() engine.Engine { return db.engine }
